@@ -174,6 +174,10 @@ type AnalyzedFnParam struct {
 }
 
 func (self AnalyzedFnParam) String() string {
+	// A singleton extractor is declared by the name of its singleton, not by the resolved type.
+	if self.IsSingletonExtractor {
+		return fmt.Sprintf("%s: %s", self.Ident, self.SingletonIdent)
+	}
 	return fmt.Sprintf("%s: %s", self.Ident, self.Type)
 }
 
